@@ -14,13 +14,20 @@ from concurrent.futures import ThreadPoolExecutor
 
 VERIF = os.path.dirname(os.path.dirname(os.path.abspath(__file__)))
 REPO = os.environ.get("VERIF_REPO", "/repo")
-WORK = os.path.join(VERIF, ".work")
+# The defaults are what the registered checks use: /repo's working tree, the crates under /verif/kani, scratch under
+# /verif/.work, evidence under /verif/evidence.  The overrides exist so that seeded/run-against-copy.sh can point a
+# check at a patched COPY of the repository (own copy of the harness crates, own scratch and evidence directories)
+# without touching /repo or the committed evidence.
+WORK = os.environ.get("VERIF_WORK") or os.path.join(VERIF, ".work")
+KANI_DIR = os.environ.get("VERIF_KANI") or os.path.join(VERIF, "kani")
+EVIDENCE_DIR = os.environ.get("VERIF_EVIDENCE") or os.path.join(VERIF, "evidence")
+REPLAY_DIR = os.environ.get("VERIF_REPLAYS") or os.path.join(VERIF, "replays")
 CRATES = {
-    "rules": os.path.join(VERIF, "kani", "rules"),
-    "magic": os.path.join(VERIF, "kani", "magic"),
-    "search": os.path.join(VERIF, "kani", "search"),
+    "rules": os.path.join(KANI_DIR, "rules"),
+    "magic": os.path.join(KANI_DIR, "magic"),
+    "search": os.path.join(KANI_DIR, "search"),
 }
-ENV = dict(os.environ, CARGO_NET_OFFLINE="true", CARGO_TERM_COLOR="never")
+ENV = dict(os.environ, CARGO_NET_OFFLINE="true", CARGO_TERM_COLOR="never", FLOUNDER_SRC=os.path.join(REPO, "src"))
 
 
 def log(*a):
@@ -373,7 +380,7 @@ def save_vals(prop, r):
     vals = r.get("playback")
     if not vals:
         return None
-    d = os.path.join(VERIF, "replays", prop)
+    d = os.path.join(REPLAY_DIR, prop)
     os.makedirs(d, exist_ok=True)
     body = "\n".join(" ".join(str(b) for b in v) for v in vals) + "\n"
     dig = hashlib.sha1((r["harness"] + body).encode()).hexdigest()[:10]
@@ -613,6 +620,6 @@ def write_evidence(prop, tier, seed, meta, results, wall, nviol, pre_info, incon
     }
     ev = {"property_id": prop, "tier": tier, "seed": seed, "level": "model_checking", "coverage": cov,
           "assumptions": meta.get("assumptions", []), "wall_s": round(wall, 1), "violations": nviol}
-    os.makedirs(os.path.join(VERIF, "evidence"), exist_ok=True)
-    with open(os.path.join(VERIF, "evidence", f"{prop}.json"), "w") as f:
+    os.makedirs(EVIDENCE_DIR, exist_ok=True)
+    with open(os.path.join(EVIDENCE_DIR, f"{prop}.json"), "w") as f:
         json.dump(ev, f, indent=1, default=str)
